@@ -419,6 +419,20 @@ def stream_setters(rng, tier):
                     yield "hist %s ref %s %s:%s" % (fam, hx(b), op, ohx(v))
                 if ":" in b and not (op == "ss" and v is None):
                     yield "hist u full %s %s:%s" % (hx(b), op, ohx(v))
+    # a new value that equals the old one after percent-decoding but is spelled differently must
+    # still be written (setters are about text): every component, both directions, hex case too
+    respell = [("s://ex%61mple.org/p?q#f", "sa", "example.org"), ("s://example.org/p", "sa", "ex%61mple.org"),
+               ("//%7euser@host:80/x", "sa", "~user@host:80"), ("//%7euser@host:80/x", "sa", "%7Euser@host:80"),
+               ("s://h/a%2Fb?q", "sp", "/a%2fb"), ("s://h/%61", "sp", "/a"), ("s:a", "sp", "%61"),
+               ("s://h/p?q%3D1#f", "sq", "q%3d1"), ("s://h/p?%71", "sq", "q"), ("s://h/p?q", "sq", "%71"),
+               ("s://h/p#f%41", "sf", "f%41"), ("s://h/p#%66", "sf", "f"), ("s://h/p#f", "sf", "%66")]
+    for b, op, v in respell:
+        yield "hist u ref %s %s:%s" % (hx(b), op, hx(v))
+        yield "hist i ref %s %s:%s" % (hx(b), op, hx(v))
+        if ":" in b.split("/")[0]:
+            yield "hist u full %s %s:%s" % (hx(b), op, hx(v))
+    for fam, b, v in [("i", "s://%C3%A9/", "%c3%a9"), ("i", "s://%C3%A9/", "é"), ("i", "s://é/", "%C3%A9")]:
+        yield "hist %s ref %s sa:%s" % (fam, hx(b), hx(v))
     n = 3000 if tier == "quick" else 100000
     for _ in range(n):
         f = rng.choice("ui")
@@ -537,6 +551,15 @@ def stream_authmut(rng, tier):
                     if tier == "thorough" or rng.random() < 0.15:
                         for o2 in single:
                             yield "hist u ref %s am[%s;%s]" % (hx(b), o1, o2)
+    # respellings: the new sub-component equals the old one after percent-decoding only
+    resp = [("s://ex%61mple.org:80/p", "host:" + hx("example.org")), ("s://example.org:80/p", "host:" + hx("ex%61mple.org")),
+            ("s://%65xample.org/foo", "host:" + hx("example.org")), ("s://h%c3%a9/", "host:" + hx("h%C3%A9")),
+            ("//%75ser@h/", "ui:" + hx("user")), ("//user@h/", "ui:" + hx("us%65r")), ("//us%2Fer@h:1/?q", "ui:" + hx("us%2fer"))]
+    for b, o in resp:
+        for f in "ui":
+            yield "hist %s ref %s am[%s]" % (f, hx(b), o)
+            yield "hist %s ref %s am[port:%s;%s]" % (f, hx(b), hx("40"), o)
+            yield "hist %s ref %s am[%s;port:%s]" % (f, hx(b), o, hx("40"))
     n = 3000 if tier == "quick" else 100000
     for _ in range(n):
         f = rng.choice("ui")
